@@ -236,6 +236,13 @@ pub struct World {
     /// Some(errno): while exporting and importing, writes to stdout / stderr fail with this errno
     #[serde(default)]
     pub stdio_broken: Option<i32>,
+    /// after the import, ANOTHER process replaces the file with its own export of this circuit
+    /// (optionally keeping the modification time: cp -p, rsync -t, coarse timestamps), and the
+    /// importing process imports the path again: it must now get THAT circuit
+    #[serde(default)]
+    pub outside_replace: Option<ProgSpec>,
+    #[serde(default)]
+    pub outside_keeps_mtime: bool,
     /// history of the *process*: worlds the same thread ran through earlier (a long-lived
     /// exporter/importer). Their own verdicts are not judged here.
     #[serde(default)]
@@ -827,6 +834,42 @@ fn run_world_inner(w: &World) -> Obs {
             obs.summary = format!("import Ok ({} gates)", ic.gates.len());
         }
     }
+    // ---------------- another process replaces the file; this process imports the path again
+    if let Some(other) = &w.outside_replace {
+        if let Ok(oc) = compile_ssa(other, w.dedup) {
+            seams::install_plan(Plan::default());
+            let tmp = seams::sim_path("outside.tmp.txt");
+            if let ExportRes::Ok = do_export(&oc, &other.src, &tmp, false) {
+                if let Some(bytes) = seams::disk_get("/SIMDISK/outside.tmp.txt") {
+                    if w.outside_keeps_mtime {
+                        seams::disk_put_keep_mtime(pstr, bytes);
+                    } else {
+                        seams::disk_put(pstr, bytes);
+                    }
+                    bump(&mut obs.counters, if w.outside_keeps_mtime { "outside_replace_same_mtime" } else { "outside_replace_new_mtime" });
+                    obs.nontrivial = true;
+                    obs.executions += 2;
+                    match do_import(&path, w.via_lib) {
+                        ImportRes::Panic(m) => obs.findings.push(finding("import_panicked", &panic_site(&m), format!("second import panicked: {m}"))),
+                        ImportRes::Err(class) => obs.findings.push(finding(
+                            "import_failed_without_fault",
+                            "",
+                            format!("another process replaced the file with its own intact export; importing the path again failed with {class}"),
+                        )),
+                        ImportRes::Ok(ic) => {
+                            if let Err(e) = function_equal(&oc, &ic, tag(&other.src)) {
+                                obs.findings.push(finding(
+                                    "import_returned_stale_circuit",
+                                    "",
+                                    format!("another process replaced the file{}; importing the path again did not return the circuit that is in the file now: {e}", if w.outside_keeps_mtime { " (same modification time)" } else { "" }),
+                                ));
+                            }
+                        }
+                    }
+                }
+            }
+        }
+    }
     let _ = hard_w;
     let log = seams::take_log();
     let mut d = Digest::new();
@@ -1167,7 +1210,7 @@ static NSYNC_OF_LAST_REFERENCE: std::sync::atomic::AtomicU64 = std::sync::atomic
 
 fn reference_export(prog: &ProgSpec, dedup: bool, keys: Keys) -> Option<(Vec<u8>, u64, u64)> {
     // fault-free export to learn the size of the search space (write count, bytes)
-    let w = World { program: Some(prog.clone()), dedup, keys, export_plan: Plan::default(), corruptions: vec![], import_plan: Plan::default(), via_lib: false, s5: None, raw_text: None, prior: vec![], earlier: vec![], file_name: None, stdio_broken: None };
+    let w = World { program: Some(prog.clone()), dedup, keys, export_plan: Plan::default(), corruptions: vec![], import_plan: Plan::default(), via_lib: false, s5: None, raw_text: None, prior: vec![], earlier: vec![], file_name: None, stdio_broken: None, outside_replace: None, outside_keeps_mtime: false };
     seams::reset_world();
     let w2 = w.clone();
     run_party(keys, move || {
@@ -1208,6 +1251,8 @@ pub fn make_world(plan: &CasePlan, seed: u64, idx: u64) -> (World, &'static str,
         earlier: vec![],
         file_name: None,
         stdio_broken: None,
+        outside_replace: None,
+        outside_keeps_mtime: false,
     };
     // the file's name and the state of the process's stdout/stderr are dimensions of every family
     if family != "s5" && p.chance(1, 3) {
@@ -1251,6 +1296,10 @@ pub fn make_world(plan: &CasePlan, seed: u64, idx: u64) -> (World, &'static str,
             let (nw, len) = probe.as_ref().map(|(_, nw, n)| (*nw, *n as usize)).unwrap_or((50, 200));
             w.program = Some(prog);
             w.prior = draw_priors(plan, &mut p);
+            if p.chance(1, 2) {
+                w.outside_replace = Some(draw_subject(plan, &mut p, false));
+                w.outside_keeps_mtime = p.chance(1, 2);
+            }
             if p.chance(1, 2) {
                 for _ in 0..p.range(1, 4) {
                     w.export_plan.write.insert(p.below(nw + 1), if p.chance(1, 2) { Act::Short(p.range(1, 5) as usize) } else { Act::Eintr });
@@ -1625,6 +1674,13 @@ fn run_sweep(base: &World, acc: &mut Acc) {
         }
     };
     go(base.clone(), acc);
+    // another process replaces the file between two imports (new / same modification time)
+    for keep in [false, true] {
+        let mut w = base.clone();
+        w.outside_replace = Some(ProgSpec { name: "other".into(), src: "pub fn main(a: bool, b: bool) -> (bool, bool) {\n    (a & b, a ^ b)\n}\n".into(), consts: vec![] });
+        w.outside_keeps_mtime = keep;
+        go(w, acc);
+    }
     // every file name of the pool, and every way the process's stdout/stderr can be broken
     for name in FILE_NAMES {
         let mut w = base.clone();
